@@ -150,6 +150,7 @@ ValuesOf(s) ==
       [] sh = "bindpair" -> {[sh |-> sh, elems |-> <<[sh |-> "bind", id |-> 1], [sh |-> "bind", id |-> 2]>>]}
       [] sh = "mixedpair" -> {[sh |-> sh, elems |-> <<[sh |-> "bind", id |-> 1], Num(a, 2)>>] : a \in {"int", "float"}}
                              \cup {[sh |-> sh, elems |-> <<Num(a, 1), [sh |-> "bind", id |-> 2]>>] : a \in {"int", "float"}}
+      [] sh = "strpat" -> {[sh |-> sh, id |-> i, w |-> s[4]] : i \in Ids}
       [] OTHER -> {[sh |-> sh, id |-> i] : i \in Ids}
 
 Pick(S) == IF Mode = "walk" THEN {RandomElement(S)} ELSE S
